@@ -12,11 +12,6 @@ def SizesOK : T α → Prop
   | .nil => True
   | .node l _ r _ ls rs => SizesOK l ∧ SizesOK r ∧ ls = size l ∧ rs = size r
 
-theorem size_eq_length (t : T α) : size t = (toList t).length := by
-  induction t with
-  | nil => rfl
-  | node l d r h ls rs ihl ihr => simp [size, toList, ihl, ihr]; omega
-
 /-- exact probability that `TreeNode.draw` returns `e` (i uniform on [0, len)) -/
 def pr [DecidableEq α] : T α → α → ℚ
   | .nil, _ => 0
